@@ -62,6 +62,7 @@ pub fn add_irq_sources(r: &mut Rng, scn: &mut MScn, n: usize, window: u32, level
             write_refuse: if r.chance(1, 10) { vec![r.below(3) as u32] } else { vec![] },
             read_base: r.u16(),
             mcr_clear: vec![],
+            wrap: if r.chance(1, 4) { 1 + r.below(2) as u8 } else { 0 },
         }));
     }
 }
@@ -138,7 +139,7 @@ pub fn gen_soup(r: &mut Rng, profile: &str, debug_frames: bool) -> MScn {
     // recording devices at random IO ports, aimed at by some registers
     if r.chance(1, 3) {
         let p = 0xFE40 + r.below(0x100) as u16;
-        s.devs.push(DevSpec::Script(ScriptSpec { ports: vec![p, p + 1], vect: 0x90, prio: 0, raises: vec![], externals: vec![], read_refuse: sorted((0..r.below(3)).map(|_| r.below(4) as u32).collect()), write_refuse: sorted((0..r.below(3)).map(|_| r.below(4) as u32).collect()), read_base: r.u16(), mcr_clear: vec![] }));
+        s.devs.push(DevSpec::Script(ScriptSpec { ports: vec![p, p + 1], vect: 0x90, prio: 0, raises: vec![], externals: vec![], read_refuse: sorted((0..r.below(3)).map(|_| r.below(4) as u32).collect()), write_refuse: sorted((0..r.below(3)).map(|_| r.below(4) as u32).collect()), read_base: r.u16(), mcr_clear: vec![], wrap: r.below(3) as u8 }));
         s.regs.push((r.below(6) as u8, p));
     }
     if r.chance(1, 4) {
@@ -147,6 +148,39 @@ pub fn gen_soup(r: &mut Rng, profile: &str, debug_frames: bool) -> MScn {
             s.iregs.push((a, *r.pick(&[IReg::PC, IReg::PSR, IReg::MCR, IReg::SavedSP])));
             s.regs.push((r.below(6) as u8, a));
         }
+    }
+    // ---- targeted templates (narrow slices a uniform soup rarely reaches) ----
+    match r.below(12) {
+        0 | 1 => {
+            // RTI popping an unusual PSR word (condition codes 000 / 011 / 111, stray bits set,
+            // either privilege), followed by branches that consume those condition codes
+            use crate::genr::enc;
+            s.psr = Some((r.below(8) as u16) << 8 | 2);
+            let stack = 0x2C00 + r.below(0x100) as u16;
+            let ret = 0x4000 + r.below(0x8000) as u16;
+            let cc = *r.pick(&[0u16, 0, 3, 5, 6, 7, 1, 2, 4]);
+            let psr_word = *r.pick(&[0x8000u16, 0x0000, 0x8000, 0x80F8, 0x7800, 0xF8F8]) | (r.below(8) as u16) << 8 | cc;
+            s.pokes.push((stack, vec![ret, psr_word]));
+            s.regs.push((6, stack));
+            s.pokes.push((s.pc, vec![enc::RTI]));
+            let mut after = vec![enc::br(*r.pick(&[7u16, 7, 4, 2, 1, 3, 5, 6, 0]), 1), enc::add_i(0, 0, 1), enc::br(r.below(8) as u16, 1), enc::add_i(1, 1, 1)];
+            after.extend((0..6).map(|_| soup_word(r)));
+            s.pokes.push((ret, after));
+        }
+        2 => {
+            // stores of every bit-15/bit-14 pattern to KBSR with a key pending, then reading it back
+            use crate::genr::enc;
+            s.flags.ignore_privilege = true;
+            if s.kb == IoSpec::Absent {
+                s.kb = IoSpec::Bare;
+            }
+            s.events.push((0, HostEv::PushKeys(vec![0x41, 0x42])));
+            s.events.sort_by_key(|e| e.0);
+            let vals = [0x8000u16, 0xC000, 0x4000, 0x0000, 0xFFFF, 0x3FFF, 0xBFFF, 0x7FFF];
+            let p = s.pc;
+            s.pokes.push((p, vec![enc::ld(1, 6), enc::sti(1, 7), enc::ldi(2, 6), enc::ld(1, 4), enc::sti(1, 4), enc::ldi(3, 3), enc::br(7, 3), *r.pick(&vals), *r.pick(&vals), 0xFE00]));
+        }
+        _ => {}
     }
     // driver: mostly one long Step, sometimes chopped with host actions in between
     let mut left = max_ticks;
@@ -303,7 +337,7 @@ pub fn gen_adversarial(r: &mut Rng) -> MScn {
     }
     s.pokes.insert(0, (base, words));
     // recording devices at aimed ports: any call they log during a refused access is a violation
-    s.devs.push(DevSpec::Script(ScriptSpec { ports: vec![0xFE40, 0xFE41, 0xFFFF], vect: 0x90, prio: 0, raises: vec![], externals: vec![], read_refuse: vec![], write_refuse: vec![], read_base: r.u16(), mcr_clear: vec![] }));
+    s.devs.push(DevSpec::Script(ScriptSpec { ports: vec![0xFE40, 0xFE41, 0xFFFF], vect: 0x90, prio: 0, raises: vec![], externals: vec![], read_refuse: vec![], write_refuse: vec![], read_base: r.u16(), mcr_clear: vec![], wrap: 0 }));
     s.kb = IoSpec::Bare;
     s.disp = IoSpec::Bare;
     s.events.push((0, HostEv::PushKeys(vec![0x41, 0x42, 0x43])));
